@@ -18,16 +18,19 @@ Local Open Scope nat_scope.
 Inductive sched := SSerial (order : list nat) | SPicks (seed : N).
 
 (* input: concurrency level, initial balances (index = account, 0 = system
-   account), transactions (lock requests as passed to ctx.GetFuture + program),
-   schedule;
+   account), transactions (lock requests as passed to ctx.GetFuture, program,
+   and for every failing first attempt the number of instructions it executes
+   before it returns a retryable error), schedule;
    observed: final balances and per-transaction observations of the concurrent
    run, the same of the sequential run *)
 Inductive case :=
-| Case (level : nat) (init : list Z) (txs : list (list lockreq * list instr)) (s : sched)
+| Case (level : nat) (init : list Z) (txs : list (list lockreq * list instr * list nat)) (s : sched)
        (c_final : list Z) (c_obs : list (list Z)) (s_final : list Z) (s_obs : list (list Z)).
 
 Definition world_of (l : list Z) : world := fun a => nth a l 0%Z.
-Definition mk_tx (x : list lockreq * list instr) : tx := mkTx (fst x) (compile (snd x) []).
+Definition instrs_of (x : list lockreq * list instr * list nat) : list instr := snd (fst x).
+Definition mk_tx (x : list lockreq * list instr * list nat) : tx :=
+  mkTx (fst (fst x)) (compile_fails (instrs_of x) (snd x)).
 
 Fixpoint zs_eqb (a b : list Z) : bool :=
   match a, b with
@@ -39,8 +42,8 @@ Definition ozs_eqb (a : option (list Z)) (b : list Z) : bool :=
   match a with Some x => zs_eqb x b | None => false end.
 
 (* an upper bound of the number of steps of a complete run *)
-Definition fuel_of (txs : list (list lockreq * list instr)) : nat :=
-  fold_left (fun acc x => acc + 6 * length (snd x) + 8) txs 8.
+Definition fuel_of (txs : list (list lockreq * list instr * list nat)) : nat :=
+  fold_left (fun acc x => acc + (6 * length (instrs_of x) + 8) * (1 + length (snd x))) txs 8.
 
 Definition lcg (x : N) : N := ((x * 1103515245 + 12345) mod 2147483648)%N.
 
@@ -106,7 +109,7 @@ Definition check (c : case) : bool :=
                | SPicks seed => guided txs (init_state level w0) (lcg seed) fuel
                end in
       (* the hypothesis of the theorems: programs touch only what they declared *)
-      forallb (fun x => forallb (instr_ok (mk_tx x)) (snd x)) ctxs &&
+      forallb (fun x => forallb (instr_ok (mk_tx x)) (instrs_of x)) ctxs &&
       Nat.eqb (length c_obs) n && Nat.eqb (length s_obs) n &&
       (* sequential executor *)
       zs_eqb (map (seq_world txs w0) accts) s_final &&
